@@ -48,7 +48,7 @@ impl Property for C18 {
          re-seeding keys, root and nonces (stratified: every triple x every root class x both key sources). Per case: sign_with_tweak / \
          aggregate_with_tweak, 64-byte signature verified by libsecp256k1 and the Python BIP-340 verifier under x(Q) with Q from the \
          reference's taproot_tweak_pubkey, rejected under x(P); tweak() keeps key package and public package consistent; honest shares \
-         verify; a sampled cheater set (+ cancelling) is judged with the C04 model in all detection modes; DKG keys equal the key-path-only \
+         verify; a sampled cheater set (+ cancelling) and one signer with the opposite nonce sign are judged with the C04 model in all detection modes; DKG keys equal the key-path-only \
          tweak of the summed commitments and sign plainly; after a dealer / distributed share refresh the same signers still sign for the \
          same output key. One evaluation per case plus one per cheater probe. non-trivial = every case; \
          distinct = distinct (parity triple, root class, key source, n, t, |S|) tuples"
@@ -93,6 +93,7 @@ impl Property for C18 {
         }
         v.push(("src:dkg".into(), m));
         v.push(("cheaters".into(), m));
+        v.push(("nonce-sign-flipped".into(), m));
         v.push(("after-refresh:dealer".into(), m));
         v.push(("after-refresh:distributed".into(), m));
         v
@@ -280,6 +281,46 @@ fn check<C: Suite>(case: &Case, ctx: &mut Ctx) -> CheckResult {
                     &format!("{desc}; cheaters(pos)={cheat_pos:?} kinds={kinds:?}"),
                     "C18",
                 )?;
+            }
+        }
+    }
+
+    // ---- one signer computes its share with the opposite sign on its own nonces (skips / wrongly applies the BIP-340
+    // nonce negation): z -/+ 2(d + rho*e); both values are wrong shares of exactly that signer
+    {
+        let evk = crate::props::c03::even_vk::<C>(&qvk);
+        if let Ok(bfl) = frost::compute_binding_factor_list(&package, &evk, &[]) {
+            let pos = rng.below(m as u64) as usize;
+            let id = signers[pos];
+            let rho = bfl.get(&id).and_then(|b| sc_from_bytes::<C>(&b.serialize()));
+            let d = sc_from_bytes::<C>(&nonces[&id].hiding().serialize());
+            let e = sc_from_bytes::<C>(&nonces[&id].binding().serialize());
+            if let (Some(rho), Some(d), Some(e)) = (rho, d, e) {
+                let k = d + rho * e;
+                let h = crate::props::c04::share_scalar::<C>(&shares[&id]);
+                for (kind, x) in [("minus-2k", h - k - k), ("plus-2k", h + k + k)] {
+                    if x == h {
+                        continue;
+                    }
+                    let mut sub2 = shares.clone();
+                    sub2.insert(id, crate::props::c04::share_from::<C>(x));
+                    let (cheaters, dz) = model::<C>(&shares, &sub2);
+                    ctx.eval(&format!("{triple},{class_name},nonce-sign-flipped,{m},{pos},{kind}"), true);
+                    ctx.label("nonce-sign-flipped");
+                    judge_with::<C>(
+                        ctx,
+                        &package,
+                        &sub2,
+                        &tpk,
+                        &|md| frost::aggregate_custom(&package, &sub2, &tpk, md),
+                        &|| C::tr_aggregate_with_tweak(&package, &sub2, &keys.pubkeys, root_ref).unwrap(),
+                        &cheaters,
+                        dz,
+                        &msg,
+                        &format!("{desc}; signer #{pos} submits its share {kind} (own nonces with the opposite sign)"),
+                        "C18",
+                    )?;
+                }
             }
         }
     }
